@@ -44,7 +44,7 @@ def all_harnesses():
             for cap in (2, 3):
                 for si, s in enumerate(schedules(cap, False)):
                     pn = extra.replace(", ", "_").replace(" ", "")
-                    core = cap == 2 and si in (1, 2) and (ei == 0 or key in ("resamp", "delay") and ei in (1, 2)) and key != "mag2"
+                    core = (cap == 2 and si in (1, 2) and (ei == 0 or key in ("resamp", "delay") and ei in (1, 2)) and key != "mag2") or (key == "rtlsdr" and cap == 3 and si in (1, 3))
                     hs.append(Harness(f"c10_{key}{pn}_c{cap}_{sname(s)}", f"crate::c10::{fn}({L}, {cap}, {rs_sched(s)}, {L + 3}{extra})",
                                       unwind=(70 if key == "descrambler" else max(L * 3, 8) + 3), unit=unit + "::work", timeout=900,
                                       shape={"block": key, "params": extra.strip(", "), "L": L, "cap": cap, "schedule": s}, core=core))
